@@ -144,6 +144,25 @@ def rule_r2(rep, program: Program):
         writes = [n for s in part.orelse for n in ast.walk(s) if isinstance(n, ast.Attribute) and isinstance(n.ctx, ast.Store) and n.attr == "mom"]
         if writes:
             r.violate(PROP, f"{f.qualname}:zero-writes", "coefficient 0 still writes the momentum", node=part, file=f.file)
+    # the fresh draw evaluates user / system code that may raise or be interrupted (Riemannian metric, constraint
+    # Jacobian): nothing of the old momentum may have been overwritten by then, or the state that the sampler hands
+    # back after the fault carries a shrunk momentum (covariance (1 - c^2) M instead of M)
+    order = {}
+
+    def visit(n):
+        order[id(n)] = len(order)
+        for ch in ast.iter_child_nodes(n):
+            visit(ch)
+
+    for s_ in part.body:
+        visit(s_)
+    draws = [n for s_ in part.body for n in ast.walk(s_) if isinstance(n, ast.Call) and norm(n.func).endswith("sample_momentum")]
+    stores = [s_ for s_ in part.body if isinstance(s_, (ast.Assign, ast.AugAssign)) and any(norm(t) == f"{sp}.mom" for t in (s_.targets if isinstance(s_, ast.Assign) else [s_.target]))]
+    # a store statement that contains the draw evaluates the draw first (right-hand side before the store)
+    early = [s_ for s_ in stores if draws and order[id(s_)] < order[id(draws[0])] and not any(d is x for d in draws for x in ast.walk(s_))]
+    r.inst({"branch": "partial", "momentum stores before the fresh draw": [norm(x)[:50] for x in early]})
+    if early:
+        r.violate(PROP, f"{f.qualname}:store-before-draw", f"`{norm(early[0])[:60]}` overwrites the momentum before system.sample_momentum is evaluated: if the draw raises or is interrupted the state is left with a momentum scaled by sqrt(1 - c^2) and no fresh component - its law is no longer the Gaussian momentum law when the chain is resumed", node=early[0], file=f.file)
     env = SymEnv({})
     env.run(part.body)
     got = env.env.get(f"{sp}.mom")
@@ -217,6 +236,62 @@ TRI_SOURCES = ("nla.cholesky", "np.linalg.cholesky", "sla.cholesky", "_make_arra
 TRI_CLASSES = ("TriangularMatrix", "InverseTriangularMatrix")
 
 
+_INVARIANT_CACHE: dict = {}
+
+
+def _stores_triangular(cls) -> bool:
+    """The array attribute of a triangular class holds a triangular array: the constructor routes into it
+    either a value that is triangular by construction, or `_make_array_triangular(x, ...) if make_triangular else x`
+    (the caller's promise for make_triangular=False is what rule R4 checks at every call site)."""
+    key = cls.name
+    if key in _INVARIANT_CACHE:
+        return _INVARIANT_CACHE[key]
+    _INVARIANT_CACHE[key] = True  # recursion guard
+    init = cls.methods.get("__init__")
+    ok = True
+    if init is not None:
+        flag = next((p for p in init.params if p == "make_triangular"), None)
+        # last definition of every local, in order
+        env: dict[str, ast.expr] = {}
+        stored = []
+        for st in init.body_without_docstring():
+            if isinstance(st, ast.Assign) and len(st.targets) == 1 and isinstance(st.targets[0], ast.Name):
+                env[st.targets[0].id] = _subst_env(st.value, env)
+            for c in ast.walk(st):
+                if isinstance(c, ast.Call) and norm(c.func).endswith("__init__"):
+                    for k in c.keywords:
+                        if k.arg in ("_array", "_inverse_array"):
+                            stored.append(_subst_env(k.value, env))
+            if isinstance(st, ast.Assign) and any(is_self_attr(t) and t.attr in ("_array", "_inverse_array") for t in st.targets):
+                stored.append(_subst_env(st.value, env))
+        if not stored:
+            ok = False
+        for v in stored:
+            good = False
+            for n in ast.walk(v):
+                if isinstance(n, ast.IfExp) and flag and norm(n.test) == flag and isinstance(n.body, ast.Call) and call_name(n.body) in TRI_SOURCES:
+                    good = True
+                if isinstance(n, ast.IfExp) and flag and norm(n.test) == f"not {flag}" and isinstance(n.orelse, ast.Call) and call_name(n.orelse) in TRI_SOURCES:
+                    good = True
+            if isinstance(v, ast.Call) and call_name(v) in TRI_SOURCES:
+                good = True
+            ok = ok and good
+    _INVARIANT_CACHE[key] = ok
+    return ok
+
+
+def _subst_env(e, env):
+    import copy as _copy
+
+    class Sub(ast.NodeTransformer):
+        def visit_Name(self, n):  # noqa: N802
+            if isinstance(n.ctx, ast.Load) and n.id in env:
+                return _copy.deepcopy(env[n.id])
+            return n
+
+    return Sub().visit(_copy.deepcopy(e))
+
+
 def _tri_typed(e: ast.expr, f, local_defs, depth=0) -> bool:
     if depth > 4:
         return False
@@ -227,7 +302,9 @@ def _tri_typed(e: ast.expr, f, local_defs, depth=0) -> bool:
         if e.attr == "T":
             return _tri_typed(e.value, f, local_defs, depth + 1)
         if is_self_attr(e) and e.attr in ("array", "_array", "_inverse_array") and in_tri_cls:
-            return True
+            # the class's own array attribute: triangular iff its constructor establishes that
+            tri_cls = next(c for c in f.cls.mro if c.name in TRI_CLASSES)
+            return _stores_triangular(tri_cls)
         # <triangular object>.array where the object is self.factor / a *Triangular* attribute
         if e.attr in ("array", "_array", "_inverse_array") and isinstance(e.value, ast.Attribute) and e.value.attr in ("factor", "_factor"):
             return True
